@@ -12,7 +12,7 @@ def _partial(chk):
 
 
 def run():
-    chk = core_check("C14", cfgs=("B", "A"), quick_keep=16, thorough_keep=6, keep_b=(3, 1), extra=_partial)
+    chk = core_check("C14", cfgs=("B", "A"), quick_keep=16, thorough_keep=6, keep_b=(3, 1), extra=_partial, traces=(3000, 60000))
     if isinstance(chk, int):
         return chk
     chk.assumptions += ["placements: own function, all calls on one line (lambdas), one function holding all calls, "
